@@ -36,24 +36,32 @@ theorem LPos.next_eq (r i q : Nat) (h : q = i + 1) : (⟨r, i⟩ : LPos).next = 
 
 /-! ### the node table under `set` -/
 
-theorem Grow.set_ge {b b' : Src.B} (h : Grow b b') {i : Nat} (hi : (tbl b).length ≤ i) (n : Src.Node) : Grow b (b'.set i n) := by
-  obtain ⟨x, hx⟩ := h
-  refine ⟨x.set (i - (tbl b).length) n, ?_⟩
-  rw [tbl_set, hx, List.set_append_right _ _ hi]
+theorem Grow.set_ge {Z : Nat} {b b' : Src.B} (h : Grow Z b b') {i : Nat} (hi : (tbl b).length ≤ i) (n : Src.Node) : Grow Z b (b'.set i n) := by
+  refine ⟨by rw [tbl_set]; simpa using h.1, fun j hj => ?_⟩
+  have : (tbl (b'.set i n))[j]? = (tbl b')[j]? := by rw [tbl_set, List.getElem?_set_ne (by omega)]
+  rw [this]; exact h.2 j hj
+
+/-- the node of a label becomes the `silent` node of the label statement -/
+theorem Grow.set_lab {Z : Nat} (b : Src.B) {i : Nat} (hi : 0 < i ∧ i < Z) (k : Nat) : Grow Z b (b.set i (.silent k)) := by
+  refine ⟨by rw [tbl_set]; simp, fun j hj => ?_⟩
+  by_cases e : i = j
+  · subst e
+    exact .inr ⟨hi, k, by rw [tbl_set, List.getElem?_set_self hj]⟩
+  · exact .inl (by rw [tbl_set, List.getElem?_set_ne e])
 
 /-- a loop head: a placeholder is pushed, the body is translated, the placeholder is overwritten -/
-theorem agree_set {N : List Src.Node} {b b2 : Src.B} {n ph : Src.Node} (hag : AgreeOn N b (b2.set (tbl b).length n))
-    (g : Grow (b.push ph).1 b2) : N[(tbl b).length]? = some n ∧ AgreeOn N (b.push ph).1 b2 := by
+theorem agree_set {N : List Src.Node} {Z : Nat} {b b2 : Src.B} {n ph : Src.Node} (hag : AgreeOn N Z b (b2.set (tbl b).length n))
+    (g : Grow Z (b.push ph).1 b2) : N[(tbl b).length]? = some n ∧ AgreeOn N Z (b.push ph).1 b2 := by
   have hl1 : (tbl (b.push ph).1).length = (tbl b).length + 1 := by rw [(tbl_push b ph).1]; simp
   have hl2 := g.len
   have hlen : (tbl (b2.set (tbl b).length n)).length = (tbl b2).length := by rw [tbl_set]; simp
   constructor
-  · rw [hag _ (Nat.le_refl _) (by rw [hlen]; omega), tbl_set, List.getElem?_set_self (by omega)]
-  · intro i h1 h2
-    rw [hag i (by omega) (by rw [hlen]; exact h2), tbl_set, List.getElem?_set_ne (by omega)]
+  · rw [hag.2 _ (Nat.le_refl _) (by rw [hlen]; omega), tbl_set, List.getElem?_set_self (by omega)]
+  · refine ⟨by have := hag.1; omega, fun i h1 h2 => ?_⟩
+    rw [hag.2 i (by omega) (by rw [hlen]; exact h2), tbl_set, List.getElem?_set_ne (by omega)]
 
-theorem plainEnv_loop {env : Src.Env} (he : PlainEnv env) (c bl : Option Nat) : PlainEnv { env with cont := c, brkLoop := bl } :=
-  ⟨he.1, he.2⟩
+theorem plainEnv_loop {cx : Cx} {env : Src.Env} (he : EnvOK cx env) (c bl : Option Nat) : EnvOK cx { env with cont := c, brkLoop := bl } :=
+  ⟨he.1, he.2, he.3⟩
 
 /-! ### exit statements -/
 
@@ -61,22 +69,22 @@ theorem loneJump_two (x y : LItem) (l : List LItem) : loneJump (x :: y :: l) = n
   cases x <;> rfl
 
 /-- one `Jump` to a label of the loop / case stack -/
-theorem exit_piece (cx : Cx) (o l : Nat) (s s' : St) (hl : s'.loops = s.loops) (hc : s'.cases = s.cases) (env : Src.Env)
-    (trf : Nat → Src.B → Src.B × Nat) (hgrow : ∀ k b, Grow b (trf k b).1)
-    (hex : ∀ m j, ExitsOK cx m j s env → ∃ n, (∀ k b, trf k b = (b, n)) ∧ R2 cx m j (target cx.rs l) n) :
+theorem exit_piece (cx : Cx) (o l : Nat) (s s' : St) (hs : SameStk s s') (env : Src.Env)
+    (trf : Nat → Src.B → Src.B × Nat) (hgrow : ∀ k b, Grow cx.Z b (trf k b).1)
+    (hex : ∀ m j, ExitsOK cx m j s env → NamedIn cx s' → ∃ n, (∀ k b, trf k b = (b, n)) ∧ R2 cx m j (target cx.rs l) n) :
     PieceOK cx [.ljump ⟨o, Gen.op_jump, []⟩ (some l)] s s' trf env := by
-  refine ⟨hl, hc, ?_, ?_, ?_, ?_, hgrow, ?_⟩
+  refine ⟨hs.1, hs.2, hs.3, ?_, ?_, ?_, ?_, hgrow, ?_⟩
   · simp [lastNotCtx, isCtxL]
   · intro x hx root e; simp at hx; subst hx; cases e
   · intro h0; simp at h0
-  · intro l' hl' m j hx
+  · intro l' hl' m j hx hin
     have : l = l' := by simpa [loneJump] using hl'
-    subst this; exact hex m j hx
-  · intro r i0 hp _ k b _ m j hx _
-    obtain ⟨n, htr, hr⟩ := hex m j hx
+    subst this; exact hex m j hx hin
+  · intro r i0 hp _ k b _ m j hx hin _
+    obtain ⟨n, htr, hr⟩ := hex m j hx hin
     rw [htr]
     have hit : itemAt cx.rs ⟨r, i0⟩ = some (.ljump ⟨o, Gen.op_jump, []⟩ (some l)) := by simpa using hp.item (d := 0) rfl
-    exact R2.silL (lab_jump hit jump_isJump) hr
+    exact ⟨R2.silL (lab_jump hit jump_isJump) hr, LabExport.same (fun _ _ => rfl)⟩
 
 theorem cont_pm (cx : Cx) (fuel : Nat) (env : Src.Env) : PM cx contStmt (fun k b => Src.tr fuel [] env .cont k b) env := by
   intro s items s' h
@@ -93,7 +101,7 @@ theorem cont_pm (cx : Cx) (fuel : Nat) (env : Src.Env) : PM cx contStmt (fun k b
     simp only [Prod.mk.injEq] at h4
     obtain ⟨rfl, rfl⟩ := h4
     obtain ⟨rfl, rfl⟩ := genJump_spec h3
-    refine exit_piece cx _ l.1 s1 (s1.tickedOp 1) rfl rfl env _ (fun k b => ?_) (fun m j hx => ?_)
+    refine exit_piece cx _ l.1 s1 (s1.tickedOp 1) (sameStk_tickedOp _ _) env _ (fun k b => ?_) (fun m j hx _ => ?_)
     · rw [Src.tr]
       cases env.cont with
       | some t => exact Grow.refl b
@@ -116,7 +124,7 @@ theorem brkLoop_pm (cx : Cx) (fuel : Nat) (env : Src.Env) : PM cx brkLoopStmt (f
     simp only [Prod.mk.injEq] at h4
     obtain ⟨rfl, rfl⟩ := h4
     obtain ⟨rfl, rfl⟩ := genJump_spec h3
-    refine exit_piece cx _ l.2 s1 (s1.tickedOp 1) rfl rfl env _ (fun k b => ?_) (fun m j hx => ?_)
+    refine exit_piece cx _ l.2 s1 (s1.tickedOp 1) (sameStk_tickedOp _ _) env _ (fun k b => ?_) (fun m j hx _ => ?_)
     · rw [Src.tr]
       cases env.brkLoop with
       | some t => exact Grow.refl b
@@ -139,7 +147,7 @@ theorem brk_pm (cx : Cx) (fuel : Nat) (env : Src.Env) : PM cx brkStmt (fun k b =
     simp only [Prod.mk.injEq] at h4
     obtain ⟨rfl, rfl⟩ := h4
     obtain ⟨rfl, rfl⟩ := genJump_spec h3
-    refine exit_piece cx _ e s1 (s1.tickedOp 1) rfl rfl env _ (fun k b => ?_) (fun m j hx => ?_)
+    refine exit_piece cx _ e s1 (s1.tickedOp 1) (sameStk_tickedOp _ _) env _ (fun k b => ?_) (fun m j hx _ => ?_)
     · rw [Src.tr]
       cases env.brk with
       | some t => exact Grow.refl b
@@ -164,18 +172,20 @@ theorem loop_block_shape {bodyM : M (List LItem)} {sa sc : St} {blk : Blk} (h : 
 theorem loop_body_run (cx : Cx) {ops : List LItem} {sa sb : St} {trB : Nat → Src.B → Src.B × Nat} {env' : Src.Env}
     (hB : PieceOK cx ops sa sb trB env') (sL eB : Nat) (tail : List LItem) {r ib : Nat}
     (hp : Placed cx.rs r ib ([.label sL false] ++ ops ++ [.label eB false] ++ tail)) (k : Nat) (b : Src.B)
-    (hag : AgreeOn cx.N b (trB k b).1) (m j : Nat) (hex : ExitsOK cx m j sa env')
-    (hafter : R2 cx m j ⟨r, ib + ops.length + 2⟩ k) : R2 cx m j ⟨r, ib⟩ (trB k b).2 := by
+    (hag : AgreeOn cx.N cx.Z b (trB k b).1) (m j : Nat) (hex : ExitsOK cx m j sa env') (hin : NamedIn cx sb)
+    (hafter : R2 cx m j ⟨r, ib + ops.length + 2⟩ k) : R2 cx m j ⟨r, ib⟩ (trB k b).2 ∧ LabExport cx env' m j b (trB k b).1 := by
   have hp' : Placed cx.rs r ib ([.label sL false] ++ ops ++ ([.label eB false] ++ tail)) := by
     simpa [List.append_assoc] using hp
-  refine (block_enter cx hB sL _ hp' k b hag m j hex (fun _ => ?_)).1
-  have hit : itemAt cx.rs ⟨r, ib + 1 + ops.length⟩ = some (.label eB false) := by
-    have e0 : ib + 1 + ops.length = ib + ([LItem.label sL false] ++ ops).length := by simp; omega
-    rw [e0]
-    exact Placed.here (pre := [.label sL false] ++ ops) (x := .label eB false) (post := tail) (by simpa [List.append_assoc] using hp)
-  refine R2.silL (lab_label hit) ?_
-  have e : (⟨r, ib + 1 + ops.length⟩ : LPos).next = ⟨r, ib + ops.length + 2⟩ := by
-    simp only [LPos.next, LPos.mk.injEq, true_and]; omega
-  rw [e]; exact hafter
+  have hafter' : falls ops = true → R2 cx m j ⟨r, ib + 1 + ops.length⟩ k := by
+    intro _
+    have hit : itemAt cx.rs ⟨r, ib + 1 + ops.length⟩ = some (.label eB false) := by
+      have e0 : ib + 1 + ops.length = ib + ([LItem.label sL false] ++ ops).length := by simp; omega
+      rw [e0]
+      exact Placed.here (pre := [.label sL false] ++ ops) (x := .label eB false) (post := tail) (by simpa [List.append_assoc] using hp)
+    refine R2.silL (lab_label hit) ?_
+    have e : (⟨r, ib + 1 + ops.length⟩ : LPos).next = ⟨r, ib + ops.length + 2⟩ := by
+      simp only [LPos.next, LPos.mk.injEq, true_and]; omega
+    rw [e]; exact hafter
+  exact ⟨(block_enter cx hB sL _ hp' k b hag m j hex hin hafter').1, block_labs cx hB sL _ hp' k b hag m j hex hin hafter'⟩
 
 end ESV.Comp
